@@ -211,10 +211,25 @@ func parsers(c *simkit.Choices, x *simkit.Ctx) *simkit.Violation {
 	var docs [][]byte
 	for i := 0; i <= nh; i++ {
 		d := genSelfDelimited(c, x, f)
+		extreme := ""
+		if i < nh && c.N(500) == 0 {
+			// a history document far beyond every pre-allocated size: what the
+			// instance grew (or shrank back) must not show in the probe
+			d, extreme = common.ExtremeDoc(c, f)
+			if f == model.JSON {
+				d.Bytes = append(d.Bytes, '\n')
+			}
+			st.Probe("history-holds-extreme-shape")
+		}
 		docs = append(docs, d.Bytes)
 		cuts := drawCuts(c, len(d.Bytes))
+		if extreme != "" && len(cuts) > 64 {
+			cuts = cuts[:64]
+		}
 		sc.Cuts = append(sc.Cuts, cuts)
-		if i < nh {
+		if extreme != "" {
+			sc.History = append(sc.History, fmt.Sprintf("(extreme shape %s, %d bytes) %s", extreme, len(d.Bytes), trunc(hex.EncodeToString(d.Bytes[:64]), 128)))
+		} else if i < nh {
 			sc.History = append(sc.History, hex.EncodeToString(d.Bytes))
 		} else {
 			sc.Probe = hex.EncodeToString(d.Bytes)
